@@ -51,10 +51,9 @@ func SwappedArgs(pkgs ...string) func(p *load.Program, run *report.Run) {
 		}
 		n := 0
 		bad := swappedArgCalls(info, &ast.File{Decls: []ast.Decl{fd}}, &n)
-		_, fd2, _ := parseExampleFunc(swappedArgsExample, "NewTwin")
+		info2, fd2, _ := parseExampleFunc(swappedArgsExample, "NewTwin")
 		var good []swappedCall
 		if fd2 != nil {
-			info2, _, _ := parseExampleFunc(swappedArgsExample, "NewTwin")
 			good = swappedArgCalls(info2, &ast.File{Decls: []ast.Decl{fd2}}, &n)
 		}
 		if len(bad) != 1 || len(good) != 0 || fd2 == nil {
